@@ -14,6 +14,8 @@
     plate_zero_witness, plate_zero_not_good, add_broadcast_witness
                                 concrete inputs on which the sweep's rules return a wrong value, i.e. the
                                 hypotheses `Good` places on ⊗-reductions and on ⊕ cannot be dropped
+    catBack_occurrences         `adjoint_cat` sums over the *list* of occurrences of a leaf among the parts
+    cat_repeated_part_witness   Cat(y,y,y): all three slices count (19 = derivative); last slice alone = 9
     examples                    `Good`, `SubsOK`, `WFL`, and the division hypothesis are satisfiable
 -/
 import FunsorVerif.Model.C11
@@ -1194,5 +1196,57 @@ example : WFL 2 wL := by
     · by_cases h1 : id = 1
       · subst h1; simp at hk; omega
       · simp [h0, h1] at hk
+
+/-! ### `adjoint_cat`: every occurrence of a leaf among the parts counts -/
+
+/-- what one part of `Cat(v, parts)` starting at offset `off` receives (slice of the incoming adjoint,
+    then the tape's aggregation towards the part) -/
+def partAdj (n : Nat) (F : Mask) (v : Nat) (a : NT R) (id off : Nat) : NT R :=
+  agg (cs dv) sz n F (nameMask L id)
+    (if a.mask v then ⟨a.mask, fun env => a.f (upd env v (off + env v))⟩ else a)
+
+/-- offsets of the occurrences of leaf `id` among the parts (a list: multiplicity matters) -/
+def occOffsets (id : Nat) : List (Nat × Nat) → Nat → List Nat
+  | [], _ => []
+  | (id', len) :: rest, off => (if id' = id then [off] else []) ++ occOffsets id rest (off + len)
+
+/-- **Occurrence lemma for `adjoint_cat`.**  The adjoint a leaf receives from a `Cat` node is the ⊕ over
+    *all* positions at which it occurs among the parts — the rule returns a sequence of (part, adjoint)
+    pairs, not a mapping keyed by the part.  (A version that collects the pairs in a dict keyed by the
+    part keeps only the last occurrence: `cat_repeated_part_witness`.) -/
+theorem catBack_occurrences (n : Nat) (F : Mask) (v : Nat) (a : NT R) (id : Nat) (env : Env) :
+    ∀ (parts : List (Nat × Nat)) (off : Nat),
+      (catBack (cs dv) sz L n F v a parts off id).f env =
+        ((occOffsets id parts off).map (fun o => (partAdj dv sz L n F v a id o).f env)).sum := by
+  intro parts
+  induction parts with
+  | nil => intro off; simp [catBack, occOffsets, zeroNT, cs]
+  | cons q rest ih =>
+    intro off
+    obtain ⟨id', len⟩ := q
+    simp only [catBack, addF, addNT, occOffsets, List.map_append, List.sum_append]
+    rw [ih (off + len)]
+    show (_ : R) + _ = _ + _
+    congr 1
+    by_cases h : id' = id
+    · subst h; simp [single, partAdj]
+    · have h' : ¬ id = id' := fun e => h e.symm
+      simp [single, h, h', zeroNT, cs]
+
+def z0 : Env := fun _ => 0
+/-- the adjoint `Cat(y, y, y)` receives inside `sum_{0,1} Cat_1(y,y,y)[1] ⊗ d[0,1]` (parts of length 1) -/
+def aD : NT ℕ := ⟨fun k => k == 0 || k == 1, wL.T 0⟩
+
+/-- the same leaf three times among the parts: all three slices count (1+4, 0+5, 3+6 → 19 = the
+    derivative); the last slice alone — what a dict keyed by the part would keep — gives 9. -/
+theorem cat_repeated_part_witness :
+    (catBack (cs ndiv) wsz wL 2 noF 1 aD [(1, 1), (1, 1), (1, 1)] 0 1).f z0 = 19 ∧
+    (partAdj ndiv wsz wL 2 noF 1 aD 1 2).f z0 = 9 ∧
+    marginal (cs ndiv) wsz wL 2 noF 1
+      (adjoint (cs ndiv) wsz wL 2 (.sum 0 (.sum 1 (.mul (.cat 1 [(1, 1), (1, 1), (1, 1)]) (.acc 0 [])))) 1) z0 = 19 ∧
+    sumM (cs ndiv) wsz 2 noF
+      (deriv (cs ndiv) wsz wL 1 z0 (.sum 0 (.sum 1 (.mul (.cat 1 [(1, 1), (1, 1), (1, 1)]) (.acc 0 []))))) z0 = 19 := by
+  decide
+
 
 end FV.Props.C11
